@@ -51,6 +51,7 @@ package routing
 // No report about an administrative record or about a bundle whose report-to endpoint is this node; otherwise at most
 // one bundle is emitted: an administrative record without any report request, addressed to the subject's report-to.
 // govc:func (*Core).SendStatusReport property C15
+//@ assigns c.$emitted, c.$lastOut, descriptor.store.$qok
 //@ requires descriptor.bndl != nil && blocksNonNil(*descriptor.bndl) && 0 <= status && status < 4
 //@ ensures (uint64(old(descriptor.bndl.PrimaryBlock.BundleControlFlags)) & 0x02) != 0 ==> c.$emitted == old(c.$emitted)
 //@ ensures uf("coreHasEndpoint", bool, c, old(descriptor.bndl.PrimaryBlock.ReportTo)) ==> c.$emitted == old(c.$emitted)
